@@ -9,7 +9,7 @@ import twin
 
 ID = "C01"
 MODULE = "HttpcoreModel.Props.C01"
-THEOREMS = [f"Httpcore.C01.{n}" for n in ("h1_exchange_open", "h1_no_desync", "h1_reuse_rule", "exclusive_use", "in_use_not_idle",
+THEOREMS = [f"Httpcore.C01.{n}" for n in ("h1_exchange_open", "h1_no_desync", "delivers_content_length", "delivers_chunked", "no_desync", "h1_reuse_rule", "exclusive_use", "in_use_not_idle",
                                            "unfinished_exchange_closes", "h2_own_stream_only")]
 TRUSTED = [
     "Lean 4.33 kernel; axioms per theorem under coverage.theorems",
@@ -21,12 +21,12 @@ TRUSTED = [
 ]
 ASSUMPTIONS = ["the server sends exactly one well-framed final response per request (the property's own premise)",
                "Sys: the admissible actions of C05 (no cancellation between assignment and start: findings F-C05-e/f)"]
-LEVEL_TEXT = ("Lean 4 theorems: for every pair of Content-Length responses, every over-read prefix and every segmentation, two exchanges in a row on "
-              "one connection deliver exactly their own head and body (h1_no_desync); in every reachable state of Sys at most one caller is inside "
+LEVEL_TEXT = ("Lean 4 theorems: for every pair of responses framed by Content-Length or chunked encoding, every over-read prefix and every segmentation, "
+              "two exchanges in a row on one connection deliver exactly their own head and body (no_desync); in every reachable state of Sys at most one caller is inside "
               "an exchange on a connection and such a connection is never idle, an unfinished exchange closes it (exclusive_use, in_use_not_idle, "
               "unfinished_exchange_closes); an HTTP/2 stream receives exactly its own events. Tied by token-echo exploration of the real pool.")
-LEVEL_NOTE = ("Partial: no_desync is proved for Content-Length framing (chunked / close-delimited are covered by C02's reader theorems one response "
-              "at a time and by the exploration); keep-alive eligibility is h11's and observed, not modelled.")
+LEVEL_NOTE = ("Partial: no_desync is proved for Content-Length and (canonically encoded) chunked framing in any combination; close-delimited "
+              "responses end the connection; keep-alive eligibility is h11's and observed, not modelled.")
 TECHNIQUE = "Lean 4 proof (reader refinement re-used for two exchanges; invariant corollaries) + Tie A + token-echo exploration with early closes, faults, cancels"
 DESIGN_REF = "§5 C01"
 
